@@ -88,7 +88,7 @@ func c03Pre(i int) (*secp256k1.Element, oracle.Pt) {
 }
 
 func c03Generate(c *mon.Ctx) {
-	concBatches(c, c.N(6, 300), func(seed uint64) any { return &c03Case{Conc: seed} })
+	concBatches(c, c.NConc(6, 300), func(seed uint64) any { return &c03Case{Conc: seed} })
 
 	pool := gen.NewPool(c.SharedRng("pool"), 8)
 	n := 0
@@ -515,7 +515,7 @@ func c03Generate(c *mon.Ctx) {
 	})
 
 	// and again at the end of the shard, when the process has a history behind it
-	concBatches(c, c.N(4, 200), func(seed uint64) any { return &c03Case{Conc: seed + 50000} })
+	concBatches(c, c.NConc(4, 200), func(seed uint64) any { return &c03Case{Conc: seed + 50000} })
 }
 
 
